@@ -909,6 +909,7 @@ func (e *Enc) loopHeader(b *ssa.BasicBlock, li *loopInfo, preds []*ssa.BasicBloc
 	li.headerState = e.cur.clone()
 	// variants
 	li.decAtHeader = nil
+	e.setupAutoVariants(li)
 	if e.fc != nil {
 		for _, cl := range e.fc.Dec[li.index] {
 			t, err := envH.Eval(cl.Expr)
@@ -990,6 +991,7 @@ func (e *Enc) backEdges(b *ssa.BasicBlock) {
 				e.obligeNamed(fmt.Sprintf("%s/decreases/loop%d@%d", e.name, li.index, e.backOrdinal(li, b)), "decreases", "", pos, And(Ge(m0, IntLit(0)), Lt(t.T, m0)), cl.Props, "decreases "+cl.Src)
 			}
 		}
+		e.autoVariantEdge(li, b, bind, pos)
 		e.curReach = saveReach
 	}
 }
@@ -1157,53 +1159,84 @@ func (e *Enc) assumeEntry() {
 	}
 }
 
-func (e *Enc) checkPost(results []Val) {
-	env := e.fnEnv(e.cur)
+// checkPost: exit obligations are evaluated at every return site in that site's own state (no merged heap):
+// the goal is the conjunction over the return sites of  reach(site) => clause[state(site), results(site)].
+func (e *Enc) checkPost(rets []retRec) {
 	sig := e.fn.Signature
-	for i := 0; i < sig.Results().Len() && i < len(results); i++ {
-		rt := sig.Results().At(i).Type()
-		tv := TV{T: e.coerce(results[i]), Typ: rt}
-		env.vars[fmt.Sprintf("r%d", i)] = tv
-		if n := sig.Results().At(i).Name(); n != "" && n != "_" {
-			env.vars[n] = tv
-		}
-	}
 	pos := e.fn.Pos()
+	envOf := func(r retRec) *Env {
+		env := e.fnEnv(r.state)
+		for i := 0; i < sig.Results().Len() && i < len(r.vals); i++ {
+			rt := sig.Results().At(i).Type()
+			tv := TV{T: e.coerce(r.vals[i]), Typ: rt}
+			env.vars[fmt.Sprintf("r%d", i)] = tv
+			if n := sig.Results().At(i).Name(); n != "" && n != "_" {
+				env.vars[n] = tv
+			}
+		}
+		return env
+	}
 	// ghost assignments declared for this function happen when it returns
 	if e.fc != nil {
-		for _, gu := range e.fc.GhostUpd {
-			t, err := env.Eval(gu.Expr)
-			if err != nil {
-				e.note("ghostset %s: %v", gu.Name, err)
-				continue
+		for ri := range rets {
+			env := envOf(rets[ri])
+			for _, gu := range e.fc.GhostUpd {
+				t, err := env.Eval(gu.Expr)
+				if err != nil {
+					e.note("ghostset %s: %v", gu.Name, err)
+					continue
+				}
+				e.heapSet(rets[ri].state, "gh|"+gu.Name, t.T)
 			}
-			e.heapSet(e.cur, "gh|"+gu.Name, t.T)
 		}
-		env.state = e.cur
+	}
+	saveReach := e.curReach
+	e.curReach = True
+	defer func() { e.curReach = saveReach }()
+	all := func(f func(r retRec, env *Env) (Term, error)) (Term, error) {
+		var cs []Term
+		for _, r := range rets {
+			t, err := f(r, envOf(r))
+			if err != nil {
+				return Term{}, err
+			}
+			cs = append(cs, Implies(r.reach, t))
+		}
+		return And(cs...), nil
 	}
 	// lock discipline: every lock taken is released on every return path
-	if _, used := e.heap0["gh|$held"]; used {
-		e.obligeNamed(e.name+"/lock/balanced", "lock", "balanced", pos, Eq(e.heldArr(), e.heap0["gh|$held"]), []string{"C05", "C20"}, "locks held at return equal locks held at entry")
+	if h0, used := e.heap0["gh|$held"]; used {
+		g, _ := all(func(r retRec, env *Env) (Term, error) {
+			h, ok := r.state.heap["gh|$held"]
+			if !ok {
+				h = h0
+			}
+			return Eq(h, h0), nil
+		})
+		e.obligeNamed(e.name+"/lock/balanced", "lock", "balanced", pos, g, []string{"C05", "C20"}, "locks held at return equal locks held at entry")
 		if e.fnFlag("singlecs") {
 			e.obligeNamed(e.name+"/lock/single-critical-section", "lock", "single-critical-section", pos, BoolLit(e.lockCount <= 1), []string{"C05", "C20"}, "the function takes its lock at most once (lookup and fill form one critical section)")
 		}
 	}
-	// struct invariants of objects allocated here must hold when the function returns
-	e.checkAllocInvariants(pos)
+	// struct invariants of objects allocated here must hold when the function returns them
+	e.checkAllocInvariants(pos, rets)
 	if e.fc == nil {
 		return
 	}
 	for i, cl := range e.fc.Ens {
-		t, err := env.Eval(cl.Expr)
 		label := cl.Label
 		if label == "" {
 			label = "e" + itoa(i)
 		}
+		g, err := all(func(r retRec, env *Env) (Term, error) {
+			t, err := env.Eval(cl.Expr)
+			return t.T, err
+		})
 		if err != nil {
 			e.contractError(e.name, cl, err, pos)
 			continue
 		}
-		e.obligeNamed(e.name+"/post/"+label, "post", label, pos, t.T, cl.Props, "ensures "+cl.Src)
+		e.obligeNamed(e.name+"/post/"+label, "post", label, pos, g, cl.Props, "ensures "+cl.Src)
 	}
 }
 
@@ -1352,22 +1385,92 @@ func (e *Enc) typeInvAfterStore(a *Addr, pos token.Pos) {
 	}
 }
 
-func (e *Enc) checkAllocInvariants(pos token.Pos) {
+func (e *Enc) checkAllocInvariants(pos token.Pos, rets []retRec) {
+	if e.fn.Name() == "init" && e.fn.Synthetic != "" {
+		return // the package initialiser allocates dummy objects only to obtain their reflect.Type
+	}
+	sig := e.fn.Signature
 	for _, a := range e.allocs {
 		ti := e.structInv(a.typ)
 		if ti == nil || a.complete {
 			continue
 		}
-		env := &Env{e: e, vars: map[string]TV{"self": {T: a.ref, Typ: types.NewPointer(a.typ)}}, state: e.cur, old: e.entry, now0: e.now0}
+		onlyRet := a.instr != nil && e.onlyEscapesByReturn(a.instr)
 		for i, cl := range ti.Clauses {
-			t, err := env.Eval(cl.Expr)
-			if err != nil {
+			var cs []Term
+			bad := false
+			for _, r := range rets {
+				env := &Env{e: e, vars: map[string]TV{"self": {T: a.ref, Typ: types.NewPointer(a.typ)}}, state: r.state, old: e.entry, now0: e.now0}
+				t, err := env.Eval(cl.Expr)
+				if err != nil {
+					bad = true
+					break
+				}
+				guard := And(r.reach, e.reach[a.block])
+				if onlyRet {
+					// an object that can only leave the function as a result must satisfy its invariant when it is returned
+					var hits []Term
+					for k := 0; k < sig.Results().Len() && k < len(r.vals); k++ {
+						rv := e.coerce(r.vals[k])
+						if rv.Sort != SInt {
+							continue
+						}
+						hits = append(hits, Eq(rv, a.ref))
+						if types.IsInterface(sig.Results().At(k).Type()) {
+							_, unbox, srt, id := e.boxFns(types.NewPointer(a.typ))
+							hits = append(hits, And(Eq(DynType(rv), IntLit(int64(id))), Eq(App(srt, unbox, rv), a.ref)))
+						}
+					}
+					guard = And(guard, Or(hits...))
+				}
+				cs = append(cs, Implies(guard, t.T))
+			}
+			if bad {
 				continue
 			}
-			guard := e.reach[a.block]
-			e.oblige("typeinv-new", ti.Type+"/"+itoa(i), pos, Implies(guard, t.T), cl.Props, "invariant of new "+ti.Type+": "+cl.Src)
+			e.oblige("typeinv-new", ti.Type+"/"+itoa(i), pos, And(cs...), cl.Props, "invariant of new "+ti.Type+": "+cl.Src)
 		}
 	}
+}
+
+// onlyEscapesByReturn: every use of the allocation is a field access, or leads (possibly boxed) to a return.
+func (e *Enc) onlyEscapesByReturn(a *ssa.Alloc) bool {
+	ok := true
+	var visit func(v ssa.Value, depth int)
+	seen := map[ssa.Value]bool{}
+	visit = func(v ssa.Value, depth int) {
+		if !ok || seen[v] || depth > 5 {
+			return
+		}
+		seen[v] = true
+		refs := v.Referrers()
+		if refs == nil {
+			return
+		}
+		for _, r := range *refs {
+			switch x := r.(type) {
+			case *ssa.DebugRef, *ssa.UnOp, *ssa.Return:
+			case *ssa.FieldAddr:
+				if x.X != v {
+					ok = false
+				}
+			case *ssa.Store:
+				if x.Addr != v {
+					ok = false
+				}
+			case *ssa.MakeInterface:
+				visit(x, depth+1)
+			case *ssa.ChangeInterface:
+				visit(x, depth+1)
+			case *ssa.Phi:
+				visit(x, depth+1)
+			default:
+				ok = false
+			}
+		}
+	}
+	visit(a, 0)
+	return ok
 }
 
 // ---------- frame obligations (C04/C05/C12) ----------
@@ -1705,4 +1808,100 @@ func (e *Enc) externMutationObligation(name string, fn *ssa.Function, recv Val, 
 		goalFresh = Or(goalFresh, Ge(Birth(loaded), e.now0), App(SBool, "perexec", loaded))
 	}
 	e.oblige("frame", "extern-mutation/"+name, pos, goalFresh, []string{"C04", "C05"}, "receiver of mutating library method "+name+" lives in a compiled node: it must be fresh or per-execution memory")
+}
+
+// ---- termination of loops (C01): explicit `decreases` clauses, or inferred linear measures ----
+
+// isRangeLoop: loops generated for `range` over slices/strings/maps terminate by construction.
+func isRangeLoop(li *loopInfo) bool {
+	c := li.header.Comment
+	if strings.HasPrefix(c, "rangeindex") || strings.HasPrefix(c, "rangeiter") {
+		return true
+	}
+	return false
+}
+
+func (e *Enc) setupAutoVariants(li *loopInfo) {
+	li.autoVar = nil
+	li.isRange = isRangeLoop(li)
+	if li.isRange || e.skipObligations {
+		return
+	}
+	if e.fc != nil && len(e.fc.Dec[li.index]) > 0 {
+		return
+	}
+	for _, in := range li.header.Instrs {
+		phi, ok := in.(*ssa.Phi)
+		if !ok {
+			break
+		}
+		if b, ok := phi.Type().Underlying().(*types.Basic); !ok || b.Info()&types.IsInteger == 0 {
+			continue
+		}
+		// phi itself (counting down to zero)
+		li.autoVar = append(li.autoVar, autoVariant{desc: phi.Name(), mk: func(e *Enc, bind map[ssa.Value]Val) (Term, bool) { return e.phiVal(phi, bind), true }})
+		for _, bt := range e.loopBoundTerms(li, phi) {
+			bt := bt
+			li.autoVar = append(li.autoVar, autoVariant{desc: bt.desc + "-" + phi.Name(), mk: func(e *Enc, bind map[ssa.Value]Val) (Term, bool) {
+				t, ok := bt.mk(e)
+				if !ok {
+					return Term{}, false
+				}
+				return Sub(t, e.phiVal(phi, bind)), true
+			}})
+			li.autoVar = append(li.autoVar, autoVariant{desc: phi.Name() + "-" + bt.desc, mk: func(e *Enc, bind map[ssa.Value]Val) (Term, bool) {
+				t, ok := bt.mk(e)
+				if !ok {
+					return Term{}, false
+				}
+				return Sub(e.phiVal(phi, bind), t), true
+			}})
+		}
+	}
+	for i := range li.autoVar {
+		t, ok := li.autoVar[i].mk(e, nil)
+		if ok {
+			li.autoVar[i].atHead = e.define("avar", t)
+		}
+	}
+}
+
+func (e *Enc) autoVariantEdge(li *loopInfo, b *ssa.BasicBlock, bind map[ssa.Value]Val, pos token.Pos) {
+	if li.isRange || e.skipObligations {
+		return
+	}
+	for i := range li.autoVar {
+		av := &li.autoVar[i]
+		if av.atHead.S == "" {
+			continue
+		}
+		t, ok := av.mk(e, bind)
+		if !ok {
+			continue
+		}
+		ob := e.obligeNamed(fmt.Sprintf("%s/variant-cand/loop%d/%s@%d", e.name, li.index, av.desc, e.backOrdinal(li, b)), "variant-cand", av.desc, pos, And(Ge(av.atHead, IntLit(0)), Lt(t, av.atHead)), nil, "candidate termination measure "+av.desc)
+		av.obs = append(av.obs, ob)
+	}
+}
+
+// terminationObligations emits, per non-range loop without an explicit variant, one derived obligation:
+// some inferred measure decreases on every back edge.
+func (e *Enc) terminationObligations() {
+	for _, li := range e.loopList {
+		if li.isRange {
+			continue
+		}
+		if e.fc != nil && len(e.fc.Dec[li.index]) > 0 {
+			continue
+		}
+		ob := &Obligation{Name: fmt.Sprintf("%s/decreases/loop%d/inferred", e.name, li.index), Kind: "decreases", Func: e.name,
+			Pos: e.p.Pos(li.header.Instrs[0].Pos()), enc: e, Src: "loop terminates: an inferred integer measure is bounded below and decreases on every back edge"}
+		for _, av := range li.autoVar {
+			if len(av.obs) == len(li.backs) && len(av.obs) > 0 {
+				ob.AnyOf = append(ob.AnyOf, av.obs)
+			}
+		}
+		ob.Derived = true
+		e.obs = append(e.obs, ob)
+	}
 }
